@@ -107,18 +107,23 @@ def model_step(state, op):
 
 
 def impl_step(mgr, op):
+    """-> observation; an exception other than the documented ValueError of add_entry is
+    returned as ["raised", type name] and judged as a violation by the caller"""
     sink = io.StringIO()
     with contextlib.redirect_stdout(sink):
-        if op[0] == "add":
-            try:
-                mgr.add_entry(op[1], op[2])
-                return "ok"
-            except ValueError:
-                return "ValueError"
-        if op[0] == "bulk":
-            return mgr.add_entries([{"formula": f, "smiles": s} for f, s in (op[1], op[2])])
-        if op[0] == "remove":
-            return mgr.remove_entry(op[1])
+        try:
+            if op[0] == "add":
+                try:
+                    mgr.add_entry(op[1], op[2])
+                    return "ok"
+                except ValueError:
+                    return "ValueError"
+            if op[0] == "bulk":
+                return mgr.add_entries([{"formula": f, "smiles": s} for f, s in (op[1], op[2])])
+            if op[0] == "remove":
+                return mgr.remove_entry(op[1])
+        except Exception as e:
+            return ["raised", type(e).__name__]
     raise ValueError(op)
 
 
@@ -175,9 +180,12 @@ def expand(job):
         got = mgr.database
         want_state, want_obs = model_step(copy.deepcopy(state), op)
         bad = []
-        if op[0] == "add" and obs != want_obs:
+        raised = isinstance(obs, list) and obs[:1] == ["raised"]
+        if raised:
+            bad.append((["raises", op[0], obs[1]], "{}{} raises {}".format(op[0], op[1:], obs[1])))
+        if op[0] == "add" and obs != want_obs and not raised:
             bad.append((["add-verdict", want_obs], "add{} -> {} (model: {})".format(op[1:], obs, want_obs)))
-        if op[0] == "bulk" and obs != want_obs:
+        if op[0] == "bulk" and obs != want_obs and not raised:
             bad.append((["bulk-rejected-list"], "add_entries{} returned {} (model: {})".format(op[1:], obs, want_obs)))
         if canon_state(got) != canon_state(want_state):
             kind = {"add": "add-effect", "bulk": "bulk-effect", "remove": "remove-effect"}[op[0]]
@@ -211,7 +219,7 @@ def bfs(name, init, ops, depth, seed, as_frame=False, res=None, counters=None):
     init_pairs = duplicate_pairs(init)
     for key, what in invariant(init):
         res.add(Violation("initial-state", {"start": name, "history": []}, None, None,
-                          ["shipped"] + key if name != "empty" else key, "[{}] {}".format(name, what)))
+                          ["shipped"] + key if not name.startswith("empty") else key, "[{}] {}".format(name, what)))
     seen = {canon_state(init): []}
     frontier = [(init, [])]
     for d in range(depth):
@@ -252,6 +260,10 @@ def run(tier, seed):
     counters = {"transitions": 0, "states": 0, "replayed": 0, "depth_done": {}}
     ops = alphabet()
     bfs("empty", [], ops, 3 if tier == "quick" else 4, seed, res=res, counters=counters)
+    # deeper histories over a small alphabet of three valid compounds (adds and removes only)
+    small = [("H2O", "O"), ("C2H6O", "CCO"), ("H4N+", "[NH4+]")]
+    small_ops = [("add", f, s) for f, s in small] + [("remove", f) for f, _ in small] + [("bulk", small[0], small[1]), ("bulk", small[2], small[2])]
+    bfs("empty/add-remove", [], small_ops, 5 if tier == "quick" else 7, seed, res=res, counters=counters)
     shipped = {
         "rules_manager": load_db("synrbl/SynRuleImputer/rules_manager.json.gz"),
         "automated_rules": load_db("Data/Rules/automated_rules.json.gz"),
@@ -262,6 +274,10 @@ def run(tier, seed):
         if tier == "quick":
             o = [x for x in o if x[0] != "bulk"] + [x for x in o if x[0] == "bulk"][::7]
         bfs(name, db, o, 1 if tier == "quick" else 2, seed, res=res, counters=counters)
+        # depth 3 from the shipped database over removes of a first / middle / last record and two adds
+        rem = [("remove", db[0]["formula"]), ("remove", db[len(db) // 2]["formula"]), ("remove", db[-1]["formula"]),
+               ("add", "H2O2x", "OO.O"), ("add", db[1]["formula"], "[Xe]"), ("bulk", ("Xe", "[Xe]"), ("Xe", "[Xe]"))]
+        bfs(name + "/removes", db, rem, 3 if tier == "quick" else 4, seed, res=res, counters=counters)
     bfs("rules_manager(DataFrame)", shipped["rules_manager"], [x for x in alphabet() if x[0] != "bulk"], 1, seed,
         as_frame=True, res=res, counters=counters)
     res.coverage = {
@@ -287,7 +303,7 @@ def run(tier, seed):
 
 def replay(v):
     c = v.case
-    if c["start"] == "empty":
+    if c["start"].startswith("empty"):
         init = []
     elif c["start"].startswith("rules_manager"):
         init = load_db("synrbl/SynRuleImputer/rules_manager.json.gz")
@@ -297,7 +313,7 @@ def replay(v):
     out = []
     if not c["history"]:
         for key, what in invariant(init):
-            key = ["shipped"] + key if c["start"] != "empty" else key
+            key = ["shipped"] + key if not c["start"].startswith("empty") else key
             if key == v.key:
                 out.append(Violation(v.sub, c, None, None, key, what))
         return out
@@ -321,9 +337,12 @@ def replay(v):
         obs = impl_step(mgr, op)
         model, want_obs = model_step(pre, op)
         bad = []
-        if op[0] == "add" and obs != want_obs:
+        raised = isinstance(obs, list) and obs[:1] == ["raised"]
+        if raised:
+            bad.append(["raises", op[0], obs[1]])
+        if op[0] == "add" and obs != want_obs and not raised:
             bad.append(["add-verdict", want_obs])
-        if op[0] == "bulk" and obs != want_obs:
+        if op[0] == "bulk" and obs != want_obs and not raised:
             bad.append(["bulk-rejected-list"])
         if canon_state(mgr.database) != canon_state(model):
             bad.append([{"add": "add-effect", "bulk": "bulk-effect", "remove": "remove-effect"}[op[0]]])
